@@ -33,6 +33,7 @@ SHARED = {
     "GenEuler": ["C01", "C02", "C07"],
     "GenChain": ["C01", "C02", "C03", "C04", "C07"],
     "Footprint": ["C10", "C09", "C17"],
+    "GenDiff": ["C12"],
     "GenMethod": ["C01", "C02", "C03", "C04", "C07", "C09", "C10", "C17"],
 }
 
